@@ -124,9 +124,19 @@ def qkey(q):
     return json.dumps(q, sort_keys=True, separators=(",", ":"))
 
 
+_MODS = {}
+
+
+def _module(name):
+    m = _MODS.get(name)
+    if m is None:
+        m = _MODS[name] = importlib.import_module(name)
+    return m
+
+
 def call_query(q):
     """Execute one query on the live library.  Returns (ok, value_or_exception, live_args)."""
-    mod = importlib.import_module(q["m"])
+    mod = _module(q["m"])
     kind = q["k"]
     if kind == "attr":
         return True, getattr(mod, q["n"]), []
@@ -159,8 +169,11 @@ _SKIP_NAMES = {"__builtins__", "__cached__", "__doc__", "__file__", "__loader__"
 
 
 def _is_code(v):
-    return isinstance(v, (types.ModuleType, types.FunctionType, types.BuiltinFunctionType, type,
-                          types.MethodType, staticmethod, classmethod, property))
+    if isinstance(v, (types.ModuleType, types.FunctionType, types.BuiltinFunctionType, type,
+                      types.MethodType, staticmethod, classmethod, property)):
+        return True
+    # other callables (numpy's function dispatchers, functools.partial, ...) are code, not data
+    return callable(v) and not isinstance(v, (list, dict, set, tuple))
 
 
 def _same_atom(a, b):
@@ -225,6 +238,12 @@ class StateSpace(object):
             if slot[0] in ("mod", "cls") and isinstance(v, (list, dict, set)) and _flat(v):
                 # containers of strings / functions only: == is exact (no 1 == 1.0 == True ambiguity) and cheap
                 self.flat_repr[slot] = None if _flat(v, _textual) else repr(v)
+        # flat lists of non-zero numbers: equal values + equal element types is bit-exact equality and much cheaper
+        self.flat_types = {}
+        for slot, r in self.flat_repr.items():
+            v = self.orig[slot]
+            if r is not None and isinstance(v, list) and all(type(i) in (int, float) and i == i and i != 0 for i in v):
+                self.flat_types[slot] = list(map(type, v))
 
     # -- discovery ---------------------------------------------------------------------
     def discover(self):
@@ -232,11 +251,14 @@ class StateSpace(object):
         state (functions without mutable defaults, imported modules, builtins): while a name is still bound to that
         very object only its ``__dict__`` has to be looked at again."""
         out = {}
-        plain = self.__dict__.setdefault("_plain", {})
+        allplain = self.__dict__.setdefault("_plain", {})
         FT = types.FunctionType
         for mn, m in zip(self.module_names, self.mods):
+            plain = allplain.get(mn)
+            if plain is None:
+                plain = allplain[mn] = {}
             for name, v in list(vars(m).items()):
-                if plain.get((mn, name), _MISSING) is v:
+                if plain.get(name, _MISSING) is v:
                     if type(v) is FT and v.__dict__:
                         out[("fnattr", mn, v.__qualname__)] = v.__dict__
                     continue
@@ -247,28 +269,33 @@ class StateSpace(object):
                     continue
                 if isinstance(v, FT) and v.__module__ == mn:
                     if not self._defaults(out, mn, v):
-                        plain[(mn, name)] = v
+                        plain[name] = v
                     if vars(v):
                         out[("fnattr", mn, v.__qualname__)] = vars(v)
                     continue
                 if isinstance(v, type) and v.__module__ == mn:
+                    cplain = allplain.get((mn, name))
+                    if cplain is None:
+                        cplain = allplain[(mn, name)] = {}
                     for an, av in list(vars(v).items()):
-                        if plain.get((mn, name, an), _MISSING) is av:
+                        if cplain.get(an, _MISSING) is av:
                             continue
                         if an.startswith("__") and an.endswith("__"):
+                            if not isinstance(av, (list, dict, set)):
+                                cplain[an] = av
                             continue
                         f = av.__func__ if isinstance(av, (staticmethod, classmethod)) else av
                         if isinstance(f, FT):
                             if not self._defaults(out, mn, f):
-                                plain[(mn, name, an)] = av
+                                cplain[an] = av
                             continue
                         if _is_code(av):
-                            plain[(mn, name, an)] = av
+                            cplain[an] = av
                             continue
                         out[("cls", mn, v.__qualname__, an)] = av
                     continue
                 if _is_code(v):
-                    plain[(mn, name)] = v
+                    plain[name] = v
                     continue
                 out[("mod", mn, name)] = v
         return out
@@ -390,15 +417,22 @@ class StateSpace(object):
             if v is not self.orig[slot]:
                 return False
             r = self.flat_repr[slot]
-            return (v == self.cold[slot]) if r is None else (repr(v) == r)
+            if r is None:
+                return v == self.cold[slot]
+            t = self.flat_types.get(slot)
+            if t is not None and v == self.cold[slot] and list(map(type, v)) == t:
+                return True
+            return repr(v) == r
         return slot in self.cold and _same_atom(v, self.cold[slot])
 
     def _flat_equal(self, slot, v):
         r = self.flat_repr[slot]
         return type(v) is type(self.cold[slot]) and ((v == self.cold[slot] and _flat(v, _textual)) if r is None else (repr(v) == r))
 
-    def render_live(self):
-        live = self.discover()
+    def render_live(self, compact=False, live=None):
+        """canonical rendering of the live state; ``compact`` writes "=" for a slot that is exactly in its cold
+        state (same information, shorter key)"""
+        live = self.discover() if live is None else live
         seen = {}
         out = []
         for slot in sorted(live):
@@ -409,7 +443,7 @@ class StateSpace(object):
             elif self._is_cold(slot, v):
                 if slot in self.flat_repr:
                     seen.setdefault(id(v), path)
-                out.append([path, self.cold_slot_render[slot]])
+                out.append([path, "=" if compact else self.cold_slot_render[slot]])
                 continue
             out.append([path, render(v, seen, path)])
         return out
